@@ -1,8 +1,9 @@
 // Driver for C07 — "the analyses terminate without crashing on every well-typed program".
 //
-//  1. fixed corpus: the replay inputs of the known findings (F13 invalid regex, F7 diamond chain)
+//  1. fixed corpus: the replay inputs of the known findings and, as regression cases that must finish, of the
+//     fixed ones (F7 diamond chain)
 //  2. M10: real lang.HasPathTo on SSA built from generated functions vs the Lean model
-//     (`hasPathCur` / `hasPathFix`, selected by the regenerated table T11) — answers exact, the model's
+//     (`hasPathOld` / `hasPathFix`, selected by the regenerated table T11) — answers exact, the model's
 //     step counts reported, and the complexity class of the real function measured on diamond chains
 //  3. trace model: real NodeTree.GetLassoHandle / GetAllCallingContexts vs `lasso` / `ctxRun`
 //  4. sweep: generated programs inside and OUTSIDE the soundness fragment × every analysis entry point
@@ -16,6 +17,7 @@ import (
 	"fmt"
 	"os"
 	"os/exec"
+	"syscall"
 	"path/filepath"
 	"regexp"
 	"sort"
@@ -102,23 +104,21 @@ var self string
 // budget for one job: generous multiple of the measured load time (which scales with machine load and
 // with the size of the imported standard library) plus a term linear in the number of SSA instructions.
 func jobBudget(loadMs int64, instrs int) time.Duration {
-	ms := 25*loadMs + int64(instrs)*20
-	lo := int64(20000)
+	ms := 40*loadMs + int64(instrs)*20
+	lo := int64(30000)
 	if lib.Thorough() {
-		lo = 40000
+		lo = 60000
 	}
 	if ms < lo {
 		ms = lo
 	}
-	hi := int64(240000)
-	if 6*loadMs > hi {
-		hi = 6 * loadMs // a machine so loaded that loading alone takes minutes
-	}
-	if ms > hi {
-		ms = hi
-	}
 	return time.Duration(ms) * time.Millisecond
 }
+
+// hardDeadline: past it, running workers are stopped and their remaining jobs are counted as skipped, so that
+// the driver always reports what it found inside the check script's own timeout.
+var hardDeadline time.Time
+var skippedByDeadline int
 
 var panicRe = regexp.MustCompile(`(?m)^(panic: .*|fatal error: .*)$`)
 
@@ -143,6 +143,7 @@ func runProgram(dir string, jobs []string, fixedBudget time.Duration) progResult
 		var stderr bytes.Buffer
 		cmd.Stderr = &stderr
 		cmd.Stdout = nil
+		cmd.SysProcAttr = &syscall.SysProcAttr{Pdeathsig: syscall.SIGKILL} // never outlive the driver
 		if err := cmd.Start(); err != nil {
 			pr.loadErr = "cannot start worker: " + err.Error()
 			return pr
@@ -183,6 +184,12 @@ func runProgram(dir string, jobs []string, fixedBudget time.Duration) progResult
 					}
 				}
 				seenLines = len(lines)
+				if !hardDeadline.IsZero() && time.Now().After(hardDeadline) {
+					cmd.Process.Kill()
+					<-done
+					skippedByDeadline++
+					return pr
+				}
 				if time.Since(lastBegin) > budget {
 					killed = true
 					cmd.Process.Kill()
@@ -267,6 +274,12 @@ func runProgram(dir string, jobs []string, fixedBudget time.Duration) progResult
 				m = "worker exited: " + fmt.Sprint(waitErr)
 			}
 			o.msg = m + " || " + firstRepoFrames(goroutineTrace(st))
+			if strings.Contains(m, "out of memory") || strings.Contains(m, "cannot allocate memory") {
+				// the 4 GiB address-space limit of the worker: unbounded allocation, the memory face of divergence
+				o.status = "timeout"
+				o.ms = budget.Milliseconds()
+				o.msg = fmt.Sprintf("no result within the budget of 4 GiB of memory (%s; load %d ms, %d instructions)", m, pr.loadMs, pr.instrs)
+			}
 		}
 		pr.outs = append(pr.outs, o)
 		// continue with the jobs after the one that died
@@ -305,6 +318,7 @@ type sweepItem struct {
 	jobs     []string
 	fixed    time.Duration // fixed budget (corpus items) or 0
 	retried  bool
+	toKey    string // corpus items: the known-finding key of a timeout on this very input
 	files    map[string]string
 	onDone   func(it *sweepItem, pr progResult)
 }
@@ -366,11 +380,15 @@ func failKey(o outcome) string {
 	return siteRe.ReplaceAllString(fmt.Sprintf("%s:%s:%s:%s", status, job, fn, msg), "_")
 }
 
+var start0 = time.Now()
+
 func main() {
 	if len(os.Args) > 1 && os.Args[1] == "-worker" {
 		workerMain(os.Args[2:])
 		return
 	}
+	// the driver itself calls a little repository code in-process (HasPathTo, GetAllCallingContexts): bound it too
+	syscall.Setrlimit(syscall.RLIMIT_AS, &syscall.Rlimit{Cur: 8 << 30, Max: 8 << 30})
 	var err error
 	self, err = os.Executable()
 	if err != nil {
@@ -410,7 +428,11 @@ func main() {
 	var retry []*sweepItem
 	abort := false
 	t0 := time.Now()
-	deadline := 1500 * time.Second // stay inside the check script's driver timeout and still report what was found
+	hardDeadline = start0.Add(2000 * time.Second)
+	if lib.Thorough() {
+		hardDeadline = start0.Add(12500 * time.Second)
+	}
+	deadline := 1300 * time.Second // stay inside the check script's driver timeout and still report what was found
 	if lib.Thorough() {
 		deadline = 10000 * time.Second
 	}
@@ -484,7 +506,9 @@ func main() {
 		key := failKey(o)
 		if o.status == "timeout" {
 			// attribute to the known exponential path search only when the model says so
-			if f7 := f7Shaped(it.dir); f7 != "" {
+			if it.toKey != "" {
+				key = it.toKey // the committed replay input of a known divergence
+			} else if f7 := f7Shaped(it.dir); f7 != "" {
 				key = "F7:haspath-exponential"
 				what += " — " + f7
 			} else if fs := fieldSensitiveOnly(it, o); fs != "" {
@@ -525,7 +549,7 @@ func main() {
 				fixed = 120 * time.Second
 			}
 			items = append(items, &sweepItem{id: "corpus-F07", features: []string{"corpus:F7-diamond-chain-26"}, files: files,
-				jobs: []string{"taint@default.yaml"}, fixed: fixed, onDone: defaultFail})
+				jobs: []string{"taint@default.yaml"}, fixed: fixed, toKey: "F7:haspath-exponential", onDone: defaultFail})
 		} else {
 			rep.Notes = append(rep.Notes, "F7 replay input missing: "+err.Error())
 		}
@@ -564,8 +588,12 @@ func main() {
 			if jb, err := os.ReadFile(filepath.Join(d, "jobs.txt")); err == nil {
 				jobs = strings.Fields(string(jb))
 			}
+			toKey := ""
+			if kb, err := os.ReadFile(filepath.Join(d, "key.txt")); err == nil {
+				toKey = strings.TrimSpace(string(kb))
+			}
 			items = append(items, &sweepItem{id: "corpus-" + filepath.Base(d), features: []string{"corpus:" + filepath.Base(d)},
-				files: files, jobs: jobs, fixed: fixed, onDone: defaultFail})
+				files: files, jobs: jobs, fixed: fixed, toKey: toKey, onDone: defaultFail})
 		}
 	}
 	// one program per feature (alone), then random mixtures
@@ -628,6 +656,7 @@ func main() {
 		}
 	}
 	rep.Extra["programs"] = len(items)
+
 	workers := 5
 	if v := os.Getenv("VERIF_C07_WORKERS"); v != "" {
 		fmt.Sscan(v, &workers)
@@ -681,6 +710,7 @@ func main() {
 		checkTraces(rep) // last: it calls GetAllCallingContexts in-process (see the watchdog there)
 	}
 	rep.Sample(map[string]any{"program": items[len(items)-1].id, "features": items[len(items)-1].features, "jobs": items[len(items)-1].jobs})
+	rep.Extra["jobs_cut_by_hard_deadline"] = skippedByDeadline
 	if !keep {
 		flog.Close()
 		os.RemoveAll(base)
